@@ -107,12 +107,35 @@ def main(tier, write_baseline=False):
         if o["name"] in seen:
             continue
         seen.add(o["name"])
-        run.violation(o["name"], "obligation refuted by %s on path %s" % (o["backend"], " ".join(o["trace"])), failing_input=(optional_prose_replay() if "optional-from-prose" in o["name"] else None) or common.model_replay("contracts.C02", o),
+        run.violation(o["name"], "obligation refuted by %s on path %s" % (o["backend"], " ".join(o["trace"])), failing_input=(optional_prose_replay() if "optional-from-prose" in o["name"] else (interpolate_replay() if "interpolate_defaults" in o["name"] else None)) or common.model_replay("contracts.C02", o),
                       solver_output={"model": o["model"], "smt2": (o["smt2"] or "")[:4000]})
     M.report(run, "C02/bounded", fails)
     M.flush_raise_baseline()
     common.apply_controls(run, tier)
     return run.finish(explanation="PROVED (lemma): defaults stay aligned with the last parameters through function.parse's padding. BOUNDED only: the round-trip itself.")
+
+
+def interpolate_replay():
+    """The contract on interpolate_defaults on the real function: an announced default replaces a provisional one; none leaves the key alone"""
+    import copy
+
+    from cdd.docstring.utils.emit_utils import interpolate_defaults
+
+    for p in ({"doc": "the x. Defaults to 5", "typ": "int", "default": 7}, {"doc": "the label. Defaults to all done, enjoy", "typ": "str", "default": "all\n    done, enjoy"},
+              {"doc": "the x", "typ": "int", "default": 7}, {"doc": "the x", "typ": "int"}, {"doc": "the x. Defaults to 5", "typ": "int"}):
+        for edd in (True, False):
+            mine = copy.deepcopy(p)
+            try:
+                interpolate_defaults(("x", mine), emit_default_doc=edd)
+            except Exception:
+                continue
+            announced = "Defaults to" in p["doc"]
+            want = ({"int": 5}.get(p["typ"], "all done, enjoy") if announced else p.get("default", "<absent>"))
+            got = mine.get("default", "<absent>")
+            if got != want:
+                return {"call": "cdd.docstring.utils.emit_utils.interpolate_defaults(('x', %r), emit_default_doc=%r)" % (p, edd),
+                        "what": "the entry's default is %r afterwards; %s" % (got, "the description announces %r (a later reading has to replace an earlier, provisional one)" % (want,) if announced else "the description announces none, so it should have stayed %r" % (want,))}
+    return None
 
 
 def replay(path):
